@@ -554,15 +554,17 @@ WITNESS_EARLY = ["sock B 2 128 a40", "listen B 0 1", "sock A 2 128 a33", "connec
                  "accept B 0", "send B 1 01", "collect B", "collect B", "deliver A", "deliver A", "connfin A 0",
                  "collect A", "collect B"]
 WITNESS_HALF_OPEN = ["sock B 2 128 a40", "listen B 0 1", "sock A 2 128 a33", "connect A 0 a40", "collect A", "deliver B",
-                     "accept B 0", "collect B", "deliver A", "connfin A 0", "send B 1 05", "collect B", "deliver A",
-                     "close A 0", "collect A", "sock A 2 128 a33", "connect A 1 a40", "collect A", "deliver B", "accept B 0",
-                     "collect B", "deliver A", "connfin A 1", "send B 2 07", "collect B", "deliver A", "send B 1 09",
+                     "accept B 0", "collect B", "deliver A", "send B 1 05", "collect B", "deliver A",
+                     "close A 0", "collect A", "deliver B", "collect B", "deliver A",
+                     "sock A 2 128 a33", "connect A 1 a40", "collect A", "deliver B", "accept B 0",
+                     "collect B", "deliver A", "send B 2 07", "collect B", "deliver A", "send B 1 09",
                      "collect B", "deliver A", "recv A 1", "recv A 1"]
 
 
 def witness_walks(ck):
-    """the histories of the counter-example theorems net_early_data_counterexample / net_half_open_counterexample on
-    the real code; the second one must show the invented message exactly as the theorem says"""
+    """the history of the counter-example theorem net_early_data_counterexample, and the history of theorem
+    net_close_unread_repaired (close() with unread data, then a re-connect from the same SAP) on the real code: without
+    the repair fixes/C05/0002 the second connection delivers a message of the half-open socket of the first one"""
     out = []
     for label, ops in (("witness-early-data", WITNESS_EARLY), ("witness-half-open", WITNESS_HALF_OPEN)):
         w = NetWalk(ck, 128, False, label)
